@@ -50,12 +50,13 @@ class VWebSocketWSGI:
 
     def send(self, message):
         c = self.conn
+        from .gw import write_error
         if c.server_closed or c.peer_closed or c.failed:
-            raise OSError('websocket is closed')
+            raise write_error(c, 'websocket is closed')
         if getattr(c, 'fail_next_send', 0):
             c.fail_next_send -= 1       # one write fails, the connection itself survives
             c.soft_failed_at = c.world.clock.now
-            raise OSError('write failed (scripted, transient)')
+            raise write_error(c, 'write failed (scripted, transient)')
         if not isinstance(message, (str, bytes, bytearray)):
             c.contract.append('ws.send of %s' % type(message).__name__)
         c.sent.append((c.world.clock.now, bytes(message) if isinstance(message, bytearray)
@@ -277,8 +278,9 @@ class TWorld:
     def ws_client_close(self, conn):
         conn.peer_closed = True
 
-    def ws_fail(self, conn):
+    def ws_fail(self, conn, exc=None):
         conn.failed = True
+        conn.fail_exc = exc
 
     def ws_fail_next_send(self, conn):
         conn.fail_next_send = getattr(conn, 'fail_next_send', 0) + 1
